@@ -206,7 +206,7 @@ def o13_6_block_codec(mir, tier):
         shapes = [((1,), (1,)), ((0, 1), (0, 2)), ((1, 1), (1, 0)), ((2, 2), (0, 1)), ((1, 1, 1), (1, 0, 1)), ((2, 1, 2), (0, 0, 0))]
         intervals = (1, 2, 16)
     else:
-        shapes = [(kl, vl) for n in (1, 2, 3) for kl in itertools.product((0, 1, 2), repeat=n) for vl in ([(0,) * n, (1,) * n, (2, 0, 1)[:n]])]
+        shapes = [(kl, vl) for n in (1, 2) for kl in itertools.product((0, 1, 2), repeat=n) for vl in ([(0,) * n, (1,) * n, (2, 0, 1)[:n]])] + [(kl, (1, 0, 1)) for kl in itertools.product((0, 1, 2), repeat=3)]
         intervals = (1, 2, 3, 16)
     res.bounds = ('(a) user keys of 0..%d symbolic bytes, free sequence / operation; raw buffers of 0, 5, 8, 9, 10 arbitrary bytes; (b) %d shapes (user key lengths, value lengths) of 1..3 entries, '
                   'restart intervals %s, all bytes symbolic, keys strictly ascending in internal-key order; larger blocks, multi-byte varints (lengths >= 128) are outside' % (KMAX, len(shapes), list(intervals)))
@@ -760,3 +760,85 @@ def o13_7_confirm(v, out):
     with an altered magic number must be rejected."""
     if out.get('_rc') != 0: return (True, 'native run panicked: %s' % out.get('_stderr', '')[-300:]) if 'panicked' in out.get('_stderr', '') else (False, 'native run failed: %s' % out.get('_stderr', '')[-300:])
     return (out.get('mismatches', '0') != '0', 'native: %s of %s footers / buffers are handled wrongly (first: %s)' % (out.get('mismatches'), out.get('cases'), out.get('first_mismatch')))
+
+
+def o14_9_filter_block_bytes(mir, tier):
+    """FilterBlockBuilder (`notify_new_data_block`, `add_key`, `finalize`, `generate_filter`) -> bytes -> `FilterBlockReader::new`
+    (`deserialize_offsets`, `split_filters_with_offset`) -> `key_may_match`, all from MIR over symbolic bytes, with a *set policy* by contract
+    (create_filter(keys) = the keys' bytes, key_may_match = membership): data blocks at concrete offsets on both sides of the 2 KiB filter
+    ranges, 0..2 one-byte keys (symbolic) per block.  Reference: the reader accepts the block the builder wrote and answers "may match"
+    for every key, asked with the offset of the data block the key was added under."""
+    nb = mir.method('FilterBlockBuilder', 'notify_new_data_block'); ak = mir.method('FilterBlockBuilder', 'add_key'); fin = mir.method('FilterBlockBuilder', 'finalize')
+    rd = mir.method('FilterBlockReader', 'new'); km = mir.method('FilterBlockReader', 'key_may_match')
+    res = Result('O14.9 filter block builder -> bytes -> reader', [nb.path, ak.path, fin.path, rd.path, km.path, 'generate_filter, deserialize_offsets, split_filters_with_offset (inlined)'], '')
+    t0 = time.time()
+    layouts = [[(0, 1)], [(0, 2), (100, 1)], [(0, 1), (2048, 1)], [(0, 1), (3000, 2), (4096, 1)], [(0, 0), (5000, 1)], [(0, 1), (2047, 1), (2049, 0), (9000, 2)], [(0, 2), (4095, 1), (4096, 1), (6143, 1)],
+               [(0, 1), (5000, 1), (7000, 1)], [(0, 1), (4096, 1), (8192, 1)], [(0, 0), (6000, 1), (6100, 1), (12000, 1)]]       # a block several ranges on, then another one
+    if tier != 'quick': layouts += [[(0, 1), (o, 1), (o + 1, 1)] for o in (2046, 2047, 4094, 4095, 8191, 10239)] + [[(0, 1), (2048 * k, 1)] for k in range(2, 7)]
+    for layout in layouts:
+        S, V, F = byte_summaries(mir); S = reader_summaries(S, V); S = varint64_summaries(S, V); P = S['$patterns']
+        def create(se, env, pc, policy, keys):
+            ks = keys
+            while isinstance(ks, Ref): ks = se.deref(env, ks)
+            out = []
+            for k in ks: out += V(se, env, k)
+            return lib.one(env, out)
+        P[r'<dyn FilterPolicy as FilterPolicy>::create_filter'] = create
+        def may_match(se, env, pc, policy, key, filt):
+            kb, fb = V(se, env, key), V(se, env, filt)
+            return lib.one(env, Enum('Ok', (Or(*[b == kb[0] for b in fb]) if fb and kb else BoolVal(False),)))
+        P[r'<dyn FilterPolicy as FilterPolicy>::key_may_match'] = may_match
+        P[r'<Arc<dyn FilterPolicy> as Clone>::clone'] = lambda se, env, pc, p_: lib.one(env, {'policy': 'set'})
+        def chunks(se, env, pc, s, n):
+            l = V(se, env, s); k = se.concretize(n)
+            return lib.one(env, {'it': [l[i:i + k] for i in range(0, len(l), k)]})
+        P[r'core::slice::<impl \[u8\]>::chunks'] = chunks
+        P[r'Vec::pop'] = lambda se, env, pc, v: (lib.one(env, Enum('None')) if not V(se, env, v) else [(None, Enum('Some', (V(se, env, v)[-1],)), env.get('$state'), [(v, V(se, env, v)[:-1])])])
+        P[r'Vec::push'] = lib.vec_push
+        keys = [[[BitVec('key_b%d_%d' % (bi, j), 8)] for j in range(nk)] for bi, (off, nk) in enumerate(layout)]
+        bb = mir.mk_struct('FilterBlockBuilder', filter_policy={'policy': 'set'}, keys=[], filters=[])
+        ex = Exec(mir, S, loop_bound=12, opaque_calls_ok=False)
+        case = 'data blocks (offset, keys): %s' % layout
+        def feed(bi, ki, env, pc):
+            if bi == len(layout):
+                def finished(buf, env_f, pc_f):
+                    raw = V(ex, env_f, buf)
+                    def read(ret, env_r, pc_r):
+                        ok = isinstance(ret, Enum) and ret.tag == 'Ok'
+                        for label, post, m in ex.check_posts([('a filter block written by FilterBlockBuilder is rejected by FilterBlockReader::new', BoolVal(ok))], pc_r):
+                            res.violations.append({'label': label, 'case': case, 'replay': ['filter_block_layout'] + ['%d:%d' % x for x in layout]})
+                        if not ok: return
+                        e2 = dict(env_r); e2['$reader'] = ret.fields[0]
+                        asks = [(bi2, ki2) for bi2 in range(len(layout)) for ki2 in range(layout[bi2][1])]
+                        def ask(i, env_a, pc_a):
+                            if i == len(asks):
+                                res.cases[case] = res.cases.get(case, 0) + 1; return
+                            bi2, ki2 = asks[i]
+                            def answered(r, env_b, pc_b):
+                                post = r if not isinstance(r, bool) else BoolVal(r)
+                                for label, _p, m in ex.check_posts([('a key stored in a data block is rejected by the filter consulted with that block\'s offset (a lookup would be cut short)', post)], pc_b):
+                                    res.violations.append({'label': label, 'case': case, 'block': bi2, 'offset': layout[bi2][0], 'replay': ['filter_block_layout'] + ['%d:%d' % x for x in layout]})
+                                ask(i + 1, env_b, pc_b)
+                            ex.run_fn(km, [Ref('$reader'), bv(layout[bi2][0]), list(keys[bi2][ki2])], env_a, pc_a, answered)
+                        ask(0, e2, pc_r)
+                    ex.run_fn(rd, [{'policy': 'set'}, list(raw)], dict(env_f), pc_f, read)
+                return ex.run_fn(fin, [Ref('$bb')], env, pc, finished)
+            if ki == -1:
+                return ex.run_fn(nb, [Ref('$bb'), bv(layout[bi][0])], env, pc, lambda _r, e, p: feed(bi, 0, e, p))
+            if ki == layout[bi][1]: return feed(bi + 1, -1, env, pc)
+            ex.run_fn(ak, [Ref('$bb'), list(keys[bi][ki])], env, pc, lambda _r, e, p: feed(bi, ki + 1, e, p))
+        ex.solver.push()
+        try: feed(0, -1, {'$state': {}, '$bb': bb}, [])
+        finally: ex.solver.pop()
+        res.absorb(ex)
+        _panics(res, ex, [], 'key_codec')
+    res.bounds = '%d layouts of 1..4 data blocks at offsets around the 2 KiB filter ranges, 0..2 one-byte symbolic keys per block; filter policy = set membership by contract' % len(layouts)
+    res.wall_s = time.time() - t0
+    if res.violations: res.status = 'violation'
+    return res
+
+
+def o14_9_confirm(v, out):
+    """Native: the same layout of data-block offsets and keys through the real builder and reader with the Bloom policy (no false negatives)."""
+    if out.get('_rc') != 0: return (True, 'native run panicked: %s' % out.get('_stderr', '')[-300:]) if 'panicked' in out.get('_stderr', '') else (False, 'native run failed: %s' % out.get('_stderr', '')[-300:])
+    return (out.get('rejected', '0') != '0', 'native: %s of %s stored keys are rejected by the filter of their own block (first: %s)' % (out.get('rejected'), out.get('keys'), out.get('first_rejected')))
